@@ -672,6 +672,18 @@ func (ex *Exec) conv(fr *frame, instr *ssa.Convert, tdst, tsrc types.Type, x Val
 }
 
 func (ex *Exec) unsafeLoad(T types.Type, p UPtr) Value {
+	if at, isArr := T.Underlying().(*types.Array); isArr {
+		// an array of integers: element-wise
+		ek, ok := basicInt(at.Elem())
+		if !ok {
+			panic(unsupported("unsafe load of " + T.String()))
+		}
+		out := make(Array, at.Len())
+		for i := range out {
+			out[i] = ex.unsafeLoad(at.Elem(), UPtr{base: p.base, idx: p.idx + i*ek.w/8, elem: at.Elem()})
+		}
+		return out
+	}
 	k, ok := basicInt(T)
 	if !ok {
 		panic(unsupported("unsafe load of " + T.String()))
@@ -703,6 +715,16 @@ func (ex *Exec) unsafeLoad(T types.Type, p UPtr) Value {
 }
 
 func (ex *Exec) unsafeStore(T types.Type, p UPtr, v Value) {
+	if at, isArr := T.Underlying().(*types.Array); isArr {
+		ek, ok := basicInt(at.Elem())
+		if !ok {
+			panic(unsupported("unsafe store of " + T.String()))
+		}
+		for i, e := range v.(Array) {
+			ex.unsafeStore(at.Elem(), UPtr{base: p.base, idx: p.idx + i*ek.w/8, elem: at.Elem()}, e)
+		}
+		return
+	}
 	k, ok := basicInt(T)
 	if !ok {
 		panic(unsupported("unsafe store of " + T.String()))
